@@ -47,7 +47,7 @@ func (inj *injector) placeRefs(ch *injChain, round, ts uint64, refs *common.Roun
 	s.AddTransaction(tx.PayloadHash())
 	s.Hash = s.PayloadHash()
 	k := inj.threshold() + inj.rng.IntN(inj.n-inj.threshold()+1)
-	pos := inj.randomSigners(k)
+	pos := inj.signersFor(ch.id, k)
 	s.Signature = &crypto.CosiSignature{Signature: inj.sign(pos, s.Hash, -1), Mask: maskOf(pos)}
 	return &injected{snap: s, tx: tx, chain: ch, applied: map[int]bool{}}
 }
